@@ -272,6 +272,39 @@ func ShuffledPresentation(r *rand.Rand, nl *sbom.NodeList) *sbom.NodeList {
 	return c
 }
 
+// SplitPresentation returns a deep copy holding the same nodes, roots and edge triples in another stored form:
+// every edge record is cut into one to three records (same source and type, the targets dealt out among them) and
+// the records of all sources are interleaved at random.
+func SplitPresentation(r *rand.Rand, nl *sbom.NodeList) *sbom.NodeList {
+	c := Clone(nl)
+	var out []*sbom.Edge
+	for _, e := range c.Edges {
+		k := 1 + r.Intn(3)
+		if k > len(e.To) {
+			k = len(e.To)
+		}
+		if k <= 1 {
+			out = append(out, e)
+			continue
+		}
+		parts := make([]*sbom.Edge, k)
+		for i := range parts {
+			parts[i] = &sbom.Edge{From: e.From, Type: e.Type}
+		}
+		for i, t := range e.To {
+			j := i
+			if i >= k {
+				j = r.Intn(k)
+			}
+			parts[j].To = append(parts[j].To, t)
+		}
+		out = append(out, parts...)
+	}
+	r.Shuffle(len(out), func(i, j int) { out[i], out[j] = out[j], out[i] })
+	c.Edges = out
+	return c
+}
+
 // EnumerateWellFormed lists every well-formed node list over ids[0:n] with one edge type:
 // every subset of nodes × every subset of edge triples among them × every root subset.
 // Edges are stored normalised (grouped per source).
